@@ -31,6 +31,24 @@ Definition chk_one (base : N) (ranges : list (N * N * N)) (entries : list entry)
       end
   end.
 
+(* "the answer is the same whether the address is given as relative address, stated virtual address or file offset": any two lookups of one
+   case that denote the same relative address (a file offset denotes the address its segment range maps it to) were answered alike *)
+Definition obs_same (o1 o2 : obs) : bool :=
+  match o1, o2 with
+  | None, None => true
+  | Some (s1, z1, _, _), Some (s2, z2, _, _) =>
+      (s1 =? s2) && match z1, z2 with Some a, Some b => a =? b | None, None => true | _, _ => false end
+  | _, _ => false
+  end.
+Definition forms_agree (base : N) (ranges : list (N * N * N)) (lookups : list (addr * obs)) : bool :=
+  forallb (fun '(a1, o1) =>
+    match to_rel base ranges a1 with
+    | None => true
+    | Some r1 => forallb (fun '(a2, o2) => match to_rel base ranges a2 with
+                                           | Some r2 => if r1 =? r2 then obs_same o1 o2 else true
+                                           | None => true end) lookups
+    end) lookups.
+
 Definition model_eq (base : N) (ranges : list (N * N * N)) (entries : list entry) (a : addr) (o : obs) : bool :=
   match lookup base ranges entries a, o with
   | Some (s, e), Some (start, Some z, _, _) => (s =? start) && (e - s =? z)
@@ -49,7 +67,8 @@ Definition verdict_obj (c : bool * N * list (N * N * N) * list entry * list (add
       existsb (fun '(a, o) => match o, to_rel base ranges a with
                               | None, Some r => match find_le entries r None with (Some (_, KEnd), _) => true | _ => false end
                               | _, _ => false end) lookups then 10 else 0) +
-  (if negb threads_ok || negb (forallb (fun '(a, o) => chk_one base ranges entries a o) lookups) || (has_dump && negb (strictb None entries)) then 2
+  (if negb threads_ok || negb (forallb (fun '(a, o) => chk_one base ranges entries a o) lookups) || negb (forms_agree base ranges lookups) ||
+      (has_dump && negb (strictb None entries)) then 2
    else if has_dump && negb (forallb (fun '(a, o) => model_eq base ranges entries a o) lookups) then 1
    else 0).
 
